@@ -63,9 +63,13 @@ def dot(t1, t2, k=None):
         else:
             return torch.einsum("sr,ar->sar", (M, core))
 
-    t1, t2 = _process(t1, t2)
     if isinstance(t1, torch.Tensor) and isinstance(t2, torch.Tensor):
         return t1.flatten().dot(t2.flatten())
+    # A single dense operand is compressed (losslessly), so that `k` and trailing modes are honored
+    if isinstance(t1, torch.Tensor):
+        t1 = tn.Tensor(t1)
+    if isinstance(t2, torch.Tensor):
+        t2 = tn.Tensor(t2)
     Lprod = torch.ones(
         [t2.ranks_tt[0], t1.ranks_tt[0]],
         device=t1.cores[0].device,
